@@ -15,7 +15,8 @@ from .props.c15 import members, resolve
 class Observer:
     """records, per target file, what `_conform_filename` observed and did"""
 
-    def __init__(self):
+    def __init__(self, root=None):
+        self.root = root
         self.files = []  # one dict per _conform_filename call, in order
 
     def __enter__(self):
@@ -34,7 +35,7 @@ class Observer:
         obs = self
 
         def conform(filename, *a, **kw):
-            rec = {"file": os.path.basename(filename), "exists": os.path.isfile(filename), "found": None, "cmp_eq": None,
+            rec = {"file": os.path.relpath(filename, obs.root) if obs.root else os.path.basename(filename), "exists": os.path.isfile(filename), "found": None, "cmp_eq": None,
                    "replaced": None, "same_program": None, "writes": []}  # fmt: skip
             obs.files.append(rec)
             obs.cur = rec
@@ -122,7 +123,7 @@ def run_syncs(cfg, n_runs=2, via_cli=False, truths=None):
                 c["truth"] = truths[i]
             out = io.StringIO()
             rec = {"truth": c["truth"]}
-            with Observer() as ob:
+            with Observer(os.path.realpath(root)) as ob:
                 try:
                     with contextlib.redirect_stdout(out), contextlib.redirect_stderr(out):
                         if via_cli:
@@ -132,13 +133,13 @@ def run_syncs(cfg, n_runs=2, via_cli=False, truths=None):
                         else:
                             eff = ground_truth(projgen.namespace(c, root), projgen.truth_path(c, root))
                     rec["outcome"] = "ok"
-                    rec["effect"] = None if eff is None else {os.path.basename(k): bool(v) for k, v in eff.items()}
+                    rec["effect"] = None if eff is None else {os.path.relpath(os.path.realpath(k), os.path.realpath(root)): bool(v) for k, v in eff.items()}
                 except SystemExit as e:
                     rec["outcome"] = "exit:%s" % e.code
                 except Exception as e:
                     rec["outcome"] = "raises:" + exc_kind(e)
             rec["files"] = ob.files
-            rec["printed"] = out.getvalue()
+            rec["printed"] = out.getvalue().replace(os.path.realpath(root) + os.sep, "").replace(root + os.sep, "")
             res["runs"].append(rec)
             res["snap"].append(projgen.snapshot(root))
     finally:
